@@ -346,17 +346,21 @@ Definition Invoke (a : fargs) (bd : build) (ch : child) : fres :=
     else if compile then fdone 0 false
     else RunCompiled ch.
 
-(* main.go:136-178  ParseAndRun *)
-Definition ParseAndRun (a : fargs) (init_err clean_err : bool) (bd : build) (ch : child) : fres :=
+(* main.go:136-178  ParseAndRun.  clean_reports = false is the front end before commit 158c196: a failing -clean was
+   reported with out.Println, i.e. on stdout only; now errlog.Println (stderr). *)
+Definition ParseAndRun_gen (clean_reports : bool) (a : fargs) (init_err clean_err : bool) (bd : build) (ch : child) : fres :=
   match Parse a with
   | (_, PErrHelp) => fdone 0 false
   | (_, PErr) => fdone 2 true
   | (CmdVersion, PNoErr) => fdone 0 false
   | (CmdInit, PNoErr) => if init_err then fdone 1 true else fdone 0 false
-  | (CmdClean, PNoErr) => if clean_err then fdone 1 false (* out.Println("Error:", err): stdout *) else fdone 0 false
+  | (CmdClean, PNoErr) => if clean_err then fdone 1 clean_reports else fdone 0 false
   | (CmdCompileStatic, PNoErr) => Invoke a bd ch
   | (CmdNone, PNoErr) => Invoke a bd ch
   end.
+
+(* the current tree *)
+Definition ParseAndRun := ParseAndRun_gen true.
 
 (* main.go (package main): os.Exit(mage.Main()) *)
 Definition mage_exit (a : fargs) (init_err clean_err : bool) (bd : build) (ch : child) : Z :=
